@@ -2,7 +2,7 @@
    Only statements; the model is Cache/CachePolicy.v, the proofs live in Cache/CachePolicyProofs.v.
 
    Reading guide.  Times and durations are ns (Z); [mx] is cacheCtl.maximumTtl (= init_max_ttl of the configured
-   seconds); a history is any list of Tick / Store / Get / Collect / Evict events run from the empty backend; the "fetch
+   seconds); a history is any list of Tick / Store / Get / Collect / Evict events cp_run from the empty backend; the "fetch
    instant" of the property is the cp_entry's storedTime (time.Now() inside cacheCtl.Store, as the property's anchor
    says).  [EvStore s eps k (Some m) true] is a Store call at wall time s of the upstream response m under key k whose
    value packed successfully. *)
@@ -28,7 +28,7 @@ Print Assumptions C08_subtract_ttl.
    ttl' = max 1 (ttl - delta) — hence <= max 1 (upstream ttl - whole seconds elapsed) —, OPT records and everything
    else are untouched; and delta is exactly floor((t - s) / 1 s) while 0 <= t - s < 2^32 s. *)
 Theorem C08_ttl_bound : forall mx clk0 evs t k st' m' s x,
-  cachectl_get (fst (run mx (init_state clk0) evs)) t k = (st', OHit m' s x) ->
+  cachectl_get (fst (cp_run mx (init_state clk0) evs)) t k = (st', OHit m' s x) ->
   exists eps m, In (EvStore s eps k (Some m) true) evs /\ h_tc (m_hdr m) = false /\
     x = s + msg_lifetime mx m /\
     m' = subtract_ttl (elapsed_secs t s) m /\
@@ -126,7 +126,7 @@ Print Assumptions C08_max_ttl_config.
 Theorem C08_expiry : forall lag mx clk0 evs t k st' m' s x,
   lag <= 2 * SECOND -> SECOND <= mx ->
   hist_ok lag mx (init_state clk0) (evs ++ [EvGet t k]) ->
-  cachectl_get (fst (run mx (init_state clk0) evs)) t k = (st', OHit m' s x) ->
+  cachectl_get (fst (cp_run mx (init_state clk0) evs)) t k = (st', OHit m' s x) ->
   exists eps m, In (EvStore s eps k (Some m) true) evs /\ x = s + msg_lifetime mx m /\
                 t < s + msg_lifetime mx m + 2 * SECOND.
 Proof.
@@ -141,7 +141,7 @@ Print Assumptions C08_expiry.
 Theorem C08_expiry_lag : forall lag mx clk0 evs t k st' m' s x,
   SECOND <= mx ->
   hist_ok lag mx (init_state clk0) (evs ++ [EvGet t k]) ->
-  cachectl_get (fst (run mx (init_state clk0) evs)) t k = (st', OHit m' s x) ->
+  cachectl_get (fst (cp_run mx (init_state clk0) evs)) t k = (st', OHit m' s x) ->
   t < x + lag /\ exists eps m, In (EvStore s eps k (Some m) true) evs /\ x = s + msg_lifetime mx m.
 Proof. exact hit_before_expiry. Qed.
 Print Assumptions C08_expiry_lag.
@@ -183,8 +183,8 @@ Print Assumptions C08_negative_nx.
 (* ... and is invisible to the entire future: deleting that Store from the history changes no later output *)
 Theorem C08_negative_noop : forall mx st t eps k m pk e evs,
   negative m = true -> find k (st_map st) = Some e ->
-  exists o, run mx st (EvStore t eps k (Some m) pk :: evs) =
-            (fst (run mx st evs), o :: snd (run mx st evs)) /\ (o = OSkipped \/ o = OKept (msg_lifetime mx m)).
+  exists o, cp_run mx st (EvStore t eps k (Some m) pk :: evs) =
+            (fst (cp_run mx st evs), o :: snd (cp_run mx st evs)) /\ (o = OSkipped \/ o = OKept (msg_lifetime mx m)).
 Proof. exact negative_store_noop. Qed.
 Print Assumptions C08_negative_noop.
 
@@ -239,7 +239,7 @@ Definition show (o : out) : list Z :=
   end.
 
 Example C08_example_history :
-  map show (snd (run H6 (init_state 0) ex_hist)) =
+  map show (snd (cp_run H6 (init_state 0) ex_hist)) =
   [ [0]; [3; 3]; [6; 5200; 8200; 3; 10; 4294967295; 32768]; [4; 30]; [0]; [0];
     [6; 5200; 8200; 1; 8; 4294967293; 32768]; [0]; [5]; [4; 30]; [1]; [3; 30]; [3; 3]; [2]; [2];
     [6; 8400; 11400; 3; 10; 4294967295; 32768] ] /\
@@ -248,7 +248,7 @@ Proof. split; [vm_compute; reflexivity|]. apply hist_okb_sound. vm_compute. refl
 
 (* the clock assumption is what bounds the serving time: with a stuck clock (no Tick) the same cp_entry is served forever *)
 Example C08_example_stuck_clock :
-  map show (snd (run H6 (init_state 5) [EvStore (ms 5200) 1000 1 (Some ex_pos) true; EvGet (ms 999000) 1])) =
+  map show (snd (cp_run H6 (init_state 5) [EvStore (ms 5200) 1000 1 (Some ex_pos) true; EvGet (ms 999000) 1])) =
   [ [3; 3]; [6; 5200; 8200; 1; 1; 4294966302; 32768] ].
 Proof. vm_compute. reflexivity. Qed.
 
